@@ -288,7 +288,7 @@ theorem unionStep_sound {st st' : St} {T1 T2 : Ty}
     obtain ⟨-, hlen, hs⟩ := union_sound h hr hrep inv.flat r2
     obtain ⟨-, hi, his, -⟩ := union_uf h
     exact ⟨union_inv h inv hr hrep r2, hlen, hi, his, hs⟩
-  · simp only [c1, if_false] at h
+  · simp only [c1] at h
     by_cases c2 : T2.isInternal = true
     · simp only [c2, if_true] at h
       obtain ⟨r, hr⟩ := (Ty.isInternal_iff T2).1 c2
